@@ -485,8 +485,13 @@ func IterateNaluAnnexb(nals []byte, handler func(nal []byte)) error {
 		start := prePos + preLength
 		pos, length := IterateNaluStartCode(nals, start)
 		if pos == -1 {
-			if start < len(nals) {
-				handler(nals[start:])
+			// 流末尾的0x00是trailing_zero_8bits(Annex B.1.1)，不属于最后一个nal（nal不会以0x00结尾）
+			end := len(nals)
+			for end > start && nals[end-1] == 0 {
+				end--
+			}
+			if start < end {
+				handler(nals[start:end])
 				return nil
 			} else {
 				return nazaerrors.Wrap(base.ErrAvc)
